@@ -58,7 +58,12 @@ type server struct {
 	returned int32
 	afterRet int32
 	trigger  int32 // the scenario's shutdown-by-action has fired
+	slowed   int32 // slowclose: one OnClose of the shutdown has been delayed
+	closeBeg int32 // OnClose callbacks entered
+	closeEnd int32 // OnClose callbacks completed
+	stopping int32 // the driver has called Stop
 	inCB     map[int64]int32
+	active   map[any][2]int64 // event loop -> (goroutine running a callback of it, nesting depth)
 }
 
 func goid() int64 {
@@ -89,9 +94,12 @@ func key(c gnet.Conn) string {
 	return fmt.Sprintf("%p", c)
 }
 
-// confinement (C05): all callbacks of one connection run on one goroutine, callbacks of one loop never overlap
+// confinement (C05): all callbacks of one connection run on one goroutine; callbacks of one loop never run on two
+// goroutines at once (a callback nested in another one on the same goroutine - OnClose inside a handler that calls
+// EventLoop.Close - is not an overlap)
 func (s *server) enter(c gnet.Conn) func() {
 	g := goid()
+	var loop any
 	s.mu.Lock()
 	if c != nil {
 		k := key(c)
@@ -99,15 +107,25 @@ func (s *server) enter(c gnet.Conn) func() {
 			util.Fail(fmt.Sprintf("C05: callbacks of one connection ran on goroutines %d and %d", prev, g))
 		}
 		s.loopOf[k] = g
-	}
-	s.inCB[g]++
-	if s.inCB[g] > 1 {
-		util.Fail(fmt.Sprintf("C05: two callbacks overlap on the loop goroutine %d", g))
+		loop = c.EventLoop()
+		if loop != nil {
+			if s.active == nil {
+				s.active = map[any][2]int64{}
+			}
+			a := s.active[loop]
+			if a[1] > 0 && a[0] != g {
+				util.Fail(fmt.Sprintf("C05: callbacks of one event loop overlap on goroutines %d and %d", a[0], g))
+			}
+			s.active[loop] = [2]int64{g, a[1] + 1}
+		}
 	}
 	s.mu.Unlock()
 	return func() {
 		s.mu.Lock()
-		s.inCB[g]--
+		if loop != nil {
+			a := s.active[loop]
+			s.active[loop] = [2]int64{a[0], a[1] - 1}
+		}
 		s.mu.Unlock()
 	}
 }
@@ -206,11 +224,20 @@ func (s *server) OnTraffic(c gnet.Conn) gnet.Action {
 	if s.sc.source == "traffic" && atomic.CompareAndSwapInt32(&s.trigger, 0, 1) {
 		return gnet.Shutdown
 	}
+	if s.sc.source == "closetraffic" && atomic.CompareAndSwapInt32(&s.trigger, 0, 1) {
+		_ = c.EventLoop().Close(c) // the handler closes its own connection synchronously and then asks for shutdown
+		return gnet.Shutdown
+	}
 	return gnet.None
 }
 
 func (s *server) OnClose(c gnet.Conn, err error) gnet.Action {
 	defer s.enter(c)()
+	atomic.AddInt32(&s.closeBeg, 1)
+	defer atomic.AddInt32(&s.closeEnd, 1)
+	if s.sc.source == "slowclose" && atomic.LoadInt32(&s.stopping) == 1 && atomic.CompareAndSwapInt32(&s.slowed, 0, 1) {
+		defer time.Sleep(700 * time.Millisecond) // a shutdown that takes longer than Stop's polling interval
+	}
 	s.mu.Lock()
 	s.closed[key(c)]++
 	s.mu.Unlock()
@@ -405,7 +432,7 @@ func runScenario(sc scenario) string {
 		if sc.source == "close" && len(peers) > 0 {
 			_ = peers[len(peers)-1].Close()
 		}
-		if sc.source == "traffic" {
+		if sc.source == "traffic" || sc.source == "closetraffic" {
 			for _, p := range peers {
 				_, _ = p.Write([]byte("x"))
 			}
@@ -459,9 +486,45 @@ func runScenario(sc scenario) string {
 			stopRes = errStr(s.eng.Stop(context.Background()))
 		}
 	}
+	// C19: whenever a Stop call returns, nil or in-shutdown, the shutdown must be complete
+	complete := func(what string) {
+		b, e := atomic.LoadInt32(&s.closeBeg), atomic.LoadInt32(&s.closeEnd)
+		s.mu.Lock()
+		open := 0
+		for k, n := range s.opened {
+			if n == 1 && s.closed[k] == 0 {
+				open++
+			}
+		}
+		s.mu.Unlock()
+		if b != e || open > 0 {
+			util.Fail(fmt.Sprintf("C19: %s although the shutdown was not complete: %d OnClose callbacks still running, %d opened connections without OnClose", what, b-e, open))
+		}
+	}
 	switch sc.source {
+	case "slowclose":
+		atomic.StoreInt32(&s.stopping, 1)
+		second := make(chan string, 1)
+		go func() { // a second Stop in the middle of the shutdown
+			time.Sleep(250 * time.Millisecond)
+			r := errStr(s.eng.Stop(context.Background()))
+			complete("a second Stop issued during the shutdown returned " + r)
+			second <- r
+		}()
+		stopRes = errStr(s.eng.Stop(context.Background()))
+		if stopRes == "nil" {
+			complete("Stop returned nil")
+		}
+		select {
+		case <-second:
+		case <-time.After(5 * time.Second):
+			util.Fail("C19: a second Stop issued during the shutdown did not return within 5 s")
+		}
 	case "engstop":
 		stopRes = errStr(s.eng.Stop(context.Background()))
+		if stopRes == "nil" {
+			complete("Stop returned nil")
+		}
 	case "pkgstop":
 		stopRes = errStr(gnet.Stop(context.Background(), addr))
 	case "ctxexpired":
@@ -578,7 +641,7 @@ func main() {
 		r := util.NewRng(*seed)
 		var b strings.Builder
 		hist := map[string]int{}
-		sources := []string{"engstop", "pkgstop", "open", "traffic", "close", "tick", "boot", "ctxexpired", "twice", "regrace"}
+		sources := []string{"engstop", "pkgstop", "open", "traffic", "close", "tick", "boot", "ctxexpired", "twice", "regrace", "slowclose", "closetraffic"}
 		for i := 0; i < *cases; i++ {
 			src := sources[i%len(sources)]
 			ticker := r.Intn(2)
@@ -586,7 +649,7 @@ func main() {
 				ticker = 1
 			}
 			nconn := r.Pick(0, 1, 2, 3, 5)
-			if src == "open" || src == "traffic" || src == "close" {
+			if src == "open" || src == "traffic" || src == "close" || src == "slowclose" || src == "closetraffic" {
 				nconn = r.Pick(1, 2, 3, 5)
 			}
 			hist[src]++
